@@ -971,6 +971,11 @@ func oracle(c core.Case, out []string) []core.Finding {
 				Desc: fmt.Sprintf("single-validator node killed/restarted per `%s`: %s", op, strings.ReplaceAll(p[2], "_", " "))})
 			continue
 		}
+		if strings.HasPrefix(out[i], "node-replay-mismatch:") {
+			fs = append(fs, core.Finding{Fingerprint: "node.replay-round-state-differs-from-model",
+				Desc: fmt.Sprintf("`%s`: the round state after catchupReplay differs from the consensus model run over the surviving WAL records: %s", op, strings.TrimPrefix(out[i], "node-replay-mismatch:"))})
+			continue
+		}
 		if strings.HasPrefix(out[i], "node-init-failed") || out[i] == "node-journal-undecodable" {
 			fs = append(fs, core.Finding{Fingerprint: "filepv.harness.node-rig", Desc: out[i]})
 			continue
@@ -1400,6 +1405,10 @@ func main() {
 		}
 		return
 	}
+	if root := os.Getenv("TMH_C04_NODE_REPLAY"); root != "" {
+		nodeReplayMain(root)
+		return
+	}
 	if root := os.Getenv("TMH_C04_NODE"); root != "" {
 		until, _ := strconv.ParseInt(os.Getenv("TMH_C04_UNTIL"), 10, 64)
 		ms, _ := strconv.ParseInt(os.Getenv("TMH_C04_DEADLINE_MS"), 10, 64)
@@ -1415,7 +1424,7 @@ func main() {
 		ID:     "C04",
 		Driver: "c04",
 		Gen: func(r *rand.Rand, tier string, emit func(core.Case)) {
-			n, nk, nn := 500, 12, 6
+			n, nk, nn := 500, 12, 16
 			if tier == "thorough" {
 				n, nk, nn = 8000, 400, 300
 			}
@@ -1464,8 +1473,14 @@ func main() {
 			nf := map[string]int64{}
 			nodeFailReasons.Range(func(k, v interface{}) bool { nf[k.(string)] = v.(*atomic.Int64).Load(); return true })
 			return map[string]interface{}{
-				"node_unkilled_exit_reasons": nf,
-				"node_incarnations":          nodeIncarnations.Load(), "node_incarnations_killed": nodeKilled.Load(), "node_kill_syscall_histogram": nh,
+				"node_unkilled_exit_reasons":             nf,
+				"node_replay_states_compared_with_model": nodeReplayCompared.Load(), "node_replay_state_mismatches": nodeReplayMismatch.Load(),
+				"node_replay_records_fed_to_model": nodeReplayRecords.Load(), "node_replay_after_wal_repair": nodeReplayRepaired.Load(), "node_replay_comparisons_skipped": func() map[string]int64 {
+					m := map[string]int64{}
+					nodeReplaySkipped.Range(func(k, v interface{}) bool { m[k.(string)] = v.(*atomic.Int64).Load(); return true })
+					return m
+				}(),
+				"node_incarnations": nodeIncarnations.Load(), "node_incarnations_killed": nodeKilled.Load(), "node_kill_syscall_histogram": nh,
 				"node_final_reached_height": nodeReached.Load(), "node_final_stuck": nodeStuck.Load(), "node_final_stuck_without_wal_truncation": nodeStuckNoLoss.Load(), "node_final_start_failed": nodeStartFail.Load(),
 				"node_journal_entries": nodeJournalEntries.Load(), "node_journal_repeated_messages": nodeReused.Load(),
 				"persist_failure_ops": persistFails.Load(), "persist_failure_process_survived_with_other_answer": persistFailSurvived.Load(),
